@@ -456,6 +456,59 @@ def group_type(D, forms=None):
     return sorted(out)
 
 
+def sylow_type(D, h, q, v, cap=1 << 13, plimit=3000):
+    """isomorphism type (sorted list of powers of q) of the q-Sylow subgroup of the class group of D, h = q^v * m the
+    (verified) class number. The subgroup is generated by the m-th powers of prime forms (the forms of prime norm
+    below sqrt(|D|/3) generate the class group: every reduced form has a <= sqrt(|D|/3)); it is enumerated element by
+    element until it has q^v elements, then the numbers of solutions of x^(q^k) = 1 give the type.
+    None when q^v > cap or the prime forms below plimit do not generate it (inconclusive)."""
+    size = q ** v
+    if size > cap:
+        return None
+    m = h // size
+    one = form_principal(D)
+    S = {one}
+    for p in small_primes(plimit):
+        if len(S) == size:
+            break
+        f = prime_form(D, p)
+        if f is None:
+            continue
+        s_ = form_pow(f, m, D)
+        if s_ in S:
+            continue
+        base = list(S)
+        frozen = set(base)
+        t = s_
+        while t not in frozen:                    # S <- union of the cosets S * s^j
+            for x in base:
+                S.add(form_compose(x, t))
+            t = form_compose(t, s_)
+    if len(S) != size:
+        return None
+    # N[k] = #{x : x^(q^k) = 1}
+    N = [0] * (v + 1)
+    for x in S:
+        k, g = 0, x
+        while g != one:
+            g = form_pow(g, q, D)
+            k += 1
+        for j in range(k, v + 1):
+            N[j] += 1
+    cnt = []
+    for k in range(1, v + 1):
+        r, t = 0, N[k] // N[k - 1]
+        while t > 1:
+            t //= q
+            r += 1
+        cnt.append(r)
+    cnt.append(0)
+    out = []
+    for k in range(1, v + 1):
+        out += [q ** k] * (cnt[k - 1] - cnt[k])
+    return sorted(out)
+
+
 # ================================================================ discriminant generators
 
 TABLE_BOUND = {"quick": 40000, "thorough": 1000000}
@@ -880,7 +933,26 @@ def _check_h(D, h, invs, tag="", structure=True):
         ev = sum(1 for d in invs if d % 2 == 0)
         if ev != t - 1:
             return f"D = {D} has {t} prime divisors, the 2-rank of the class group is {t - 1}, reported invariants {invs}"
-    # isomorphism type against the orders of all reduced forms (cheap cases, and every non-cyclic odd part)
+    # isomorphism type, independently of what was reported: for EVERY prime q with q^2 | h the type of the q-Sylow subgroup
+    # (enumerated from prime forms) against the q-part of the reported cyclic factors
+    if ref is not None and _sylow_wanted(n):
+        canon = canonical_invariants(invs)
+        for q, v in factor_small(h):
+            if v < 2:
+                continue
+            key = (D, q)
+            if key not in _SYL_CACHE:
+                _SYL_CACHE[key] = sylow_type(D, h, q, v)
+            want = _SYL_CACHE[key]
+            if want is None:
+                _COV["sylow_inconclusive"] += 1
+                continue
+            _COV["sylow"] += 1
+            got = sorted(x for x in canon if x % q == 0)
+            if got != want:
+                return (f"D = {D}: the {q}-part of the class group has type {want} (h = {h}), "
+                        f"the reported cyclic factors {invs} have {q}-part {got}")
+    # cross-check with a second independent method (orders of ALL reduced forms) on cheap cases
     if ref is not None and n < 3000000 and h <= 400:
         canon = canonical_invariants(invs)
         odd_noncyclic = any(canon.count(q) > 1 or any(q2 != q and q2 % 2 and math.gcd(q, q2) > 1 for q2 in canon) for q in canon if q % 2)
@@ -915,9 +987,14 @@ def _check_h_unknown_ref(D, h):
 
 
 _GT_CACHE = {}
+_SYL_CACHE = {}
+
+
+def _sylow_wanted(n):
+    return True                              # every discriminant with an independent class number
 _EST_PRIMES = []
 _RATE = {"n": 0, "bad": 0}
-_COV = {"lines": 0, "lines_with_coords": 0, "sparse_empty": 0, "filtered": 0, "removed": 0}
+_COV = {"lines": 0, "lines_with_coords": 0, "sparse_empty": 0, "filtered": 0, "removed": 0, "sylow": 0, "sylow_inconclusive": 0}
 
 
 def analytic_estimate(D):
@@ -1649,7 +1726,8 @@ def extra_coverage():
             "relation_lines_checked_against_reported_coordinates": _COV["lines_with_coords"],
             "classgroup_calls": _RATE["n"], "classgroup_calls_without_result": _RATE["bad"],
             "sparse_path_results_without_structure": _COV["sparse_empty"],
-            "relations_filtered_lines_checked": _COV["filtered"], "relations_removed_lines_checked": _COV["removed"]}
+            "relations_filtered_lines_checked": _COV["filtered"], "relations_removed_lines_checked": _COV["removed"],
+            "sylow_types_compared": _COV["sylow"], "sylow_types_inconclusive": _COV["sylow_inconclusive"]}
 
 
 def nontrivial(case, ans):
